@@ -280,6 +280,10 @@ def c10_jobs(tier, seed):
         p = dict(tree=t[1], props=['C10'], alt='inner', alt_prop='C10', what=OBS10)
         p.update(t[2])
         jobs.append(J('cached:' + t[0], 'jobs.streams:tree_job', p, timeout=900))
+        if 'history_slots' in t[2]:
+            # the same histories observed in the opposite order (maps before streams): a cold map() after the history
+            p2 = dict(p, what=['map0', 'map1', 'c0f1', 'c1f1', 'c0f0', 'c1f0', 'source'], history_slots=min(2, t[2]['history_slots']))
+            jobs.append(J('cached/maps-first:' + t[0], 'jobs.streams:tree_job', p2, timeout=900))
     return jobs
 
 
